@@ -265,6 +265,20 @@ func RandSchedule(r *Rand, tasks int, meanGap int, n int) plan.Schedule {
 	if meanGap <= 0 || tasks < 1 {
 		return s
 	}
+	if r.P(1, 5) {
+		// priority-change-point style: few, deep preemptions at log-uniformly spread depths
+		k := r.Range(2, 8)
+		for i := 0; i < k; i++ {
+			g := 1
+			for e := r.Intn(6); e > 0; e-- {
+				g *= 8
+			}
+			g += r.Intn(g + 1)
+			s.Gaps = append(s.Gaps, [2]int{g, r.Intn(tasks * 3)})
+		}
+		s.After = "rtc"
+		return s
+	}
 	for i := 0; i < n; i++ {
 		g := 1 + r.Intn(2*meanGap)
 		s.Gaps = append(s.Gaps, [2]int{g, r.Intn(tasks * 3)})
